@@ -39,6 +39,12 @@ type GoBackNConn struct {
 	recvDataChan chan *PacketData
 	sendDataChan chan *PacketData
 
+	// recvBuf holds the chunks of a message that Recv has consumed so far
+	// without having seen its final chunk. It is kept across Recv calls so
+	// that a call that times out in the middle of a message does not drop
+	// the chunks it has already taken off recvDataChan.
+	recvBuf []byte
+
 	log btclog.Logger
 
 	// receivedACKSignal channel is used to signal that the queue size has
@@ -206,10 +212,7 @@ func (g *GoBackNConn) Recv() ([]byte, error) {
 	default:
 	}
 
-	var (
-		b   []byte
-		msg *PacketData
-	)
+	var msg *PacketData
 
 	ticker := time.NewTimer(g.timeoutManager.GetRecvTimeout())
 	defer ticker.Stop()
@@ -223,12 +226,15 @@ func (g *GoBackNConn) Recv() ([]byte, error) {
 		case msg = <-g.recvDataChan:
 		}
 
-		b = append(b, msg.Payload...)
+		g.recvBuf = append(g.recvBuf, msg.Payload...)
 
 		if msg.FinalChunk {
 			break
 		}
 	}
+
+	b := g.recvBuf
+	g.recvBuf = nil
 
 	return b, nil
 }
